@@ -160,3 +160,37 @@ func H_C03_BMC() {
 	}
 	v.Reach("end")
 }
+
+// H_C01_LongRun: one withheld packet, then N packets forwarded in order (the
+// receiver is at full quality for a minute or two: no further offset
+// change), then a late copy of one of the last 8192 packets and a NACK for
+// its outgoing number: the late copy must get the number of its first copy
+// and the NACK must name the packet that was sent under that number.  This is
+// the history that the K-step obligations cannot reach.
+func H_C01_LongRun() {
+	var m Map
+	base := v.U16("base")
+	ok0, _, _ := m.Map(base, 0)
+	v.Assert(ok0 && m.Drop(base+1, 0), "set-up: one packet forwarded, its successor withheld")
+	N := v.Param("N")
+	v.Unwind(N + 100)
+	for i := 0; i < N; i++ {
+		s := base + 2 + uint16(i)
+		ok, out, _ := m.Map(s, 0)
+		v.Assert(ok && out == s-1, "in-order packets after one withheld packet are renumbered by one")
+	}
+	back := v.U16("back")
+	v.Assume(back >= 1 && back <= 8192 && int(back) <= N)
+	t := base + 2 + uint16(N) - back
+	ok, out, _ := m.Map(t, 0)
+	v.Assert(v.Implies(ok, out == t-1), "a late copy gets the number of its first copy")
+	if ok {
+		v.Reach("late-forwarded")
+	}
+	ok2, s2, _ := m.Reverse(t - 1)
+	v.Assert(v.Implies(ok2, s2 == t), "a NACK is answered with the packet originally sent under that number")
+	if ok2 {
+		v.Reach("nack-answered")
+	}
+	v.Reach("end")
+}
